@@ -320,7 +320,7 @@ func hash(outer, t types.Type, x value) int {
 	case rtype:
 		return x.hash(t)
 	}
-	panic(fmt.Sprintf("unhashable type %v", outer))
+	panic(unsupported{fmt.Sprintf("unhashable map key of type %v (symbolic part?)", outer)})
 }
 
 // reflect.Value struct values don't have a fixed shape, since the
